@@ -1741,6 +1741,10 @@ impl HnswBackend {
         let mut embedding = embedding;
         let distance = self.index.read().distance_metric();
         normalize_in_place_if_needed(distance, &mut embedding)?;
+        // Reject what the index would refuse before anything reaches the WAL: a rejected
+        // overwrite must not log an Insert plus a compensating Delete, which replay would
+        // apply as a deletion of the document's previous version.
+        self.index.read().validate_vector(&embedding)?;
         let embedding_digest = digest_embedding(&embedding);
 
         let mut attempted_compaction = false;
